@@ -1,8 +1,187 @@
 import UvModel.IoWatch
-/-! helper lemmas for C14 -/
+/-! helper lemmas for C14: list facts, the step relation every model function decomposes into, and
+the structural invariant `SInv` preserved by every step -/
 namespace UvModel.IoWatch
 
 theorem Mask.sub_refl (a : Mask) : a.sub a := by
   cases a; simp [Mask.sub, Mask.and]
+
+/-! ### lists -/
+
+theorem countP_set_some (l : List (Option Nat)) (i x : Nat) (h : i < l.length) (hn : l.getD i none = none) :
+    (l.set i (some x)).countP Option.isSome = l.countP Option.isSome + 1 := by
+  induction l generalizing i with
+  | nil => simp at h
+  | cons a t ih =>
+    cases i with
+    | zero => simp at hn; subst hn; simp
+    | succ j =>
+      simp at h hn
+      simp [List.countP_cons, ih j h (by simpa using hn)]; omega
+
+theorem countP_set_none (l : List (Option Nat)) (i x : Nat) (hn : l.getD i none = some x) :
+    (l.set i none).countP Option.isSome + 1 = l.countP Option.isSome := by
+  induction l generalizing i with
+  | nil => simp at hn
+  | cons a t ih =>
+    cases i with
+    | zero => simp at hn; subst hn; simp
+    | succ j =>
+      simp at hn
+      simp [List.countP_cons]; have := ih j (by simpa using hn); omega
+
+theorem getD_set_eq (l : List (Option Nat)) (i j : Nat) (v : Option Nat) :
+    (l.set i v).getD j none = if i = j ∧ i < l.length then v else l.getD j none := by
+  simp [List.getD_eq_getElem?_getD, List.getElem?_set]
+  split <;> split <;> simp_all
+  all_goals (try omega)
+
+theorem getD_append_replicate (l : List (Option Nat)) (n j : Nat) :
+    (l ++ List.replicate n none).getD j none = l.getD j none := by
+  simp [List.getD_eq_getElem?_getD, List.getElem?_append]
+  split
+  · rfl
+  · rename_i h
+    have : l[j]? = none := by simp; omega
+    simp [this, List.getElem?_replicate]
+    split <;> rfl
+
+theorem some_getD_lt (l : List (Option Nat)) (j x : Nat) (h : l.getD j none = some x) : j < l.length := by
+  by_cases hj : j < l.length
+  · exact hj
+  · simp [List.getD_eq_getElem?_getD] at h
+    have : l[j]? = none := by simp; omega
+    simp [this] at h
+
+/-! ### watcher table access -/
+
+theorem getW_setW (s : St) (id j : Nat) (w : W) :
+    getW (setW s id w) j = if j = id ∧ id < s.ws.length then w else getW s j := by
+  simp [getW, setW, List.getD_eq_getElem?_getD, List.getElem?_set]
+  split <;> split <;> simp_all
+  all_goals (try omega)
+  all_goals (rename_i h1 h2; have : s.ws[j]? = none := by simp; omega)
+  all_goals simp [this]
+
+@[simp] theorem setW_len (s : St) (id : Nat) (w : W) : (setW s id w).ws.length = s.ws.length := by
+  simp [setW]
+
+/-! ### the frame: what a step that is neither start, stop nor queue application keeps -/
+
+structure Kept (s s' : St) : Prop where
+  watchers : s'.watchers = s.watchers
+  nfds : s'.nfds = s.nfds
+  wq : s'.wq = s.wq
+  len : s.ws.length ≤ s'.ws.length
+  core : ∀ id, id < s.ws.length → (getW s' id).fd = (getW s id).fd ∧
+    (getW s' id).pevents = (getW s id).pevents ∧ (getW s' id).events = (getW s id).events
+  fresh : ∀ id, s.ws.length ≤ id → (getW s' id).pevents = Mask.none ∧ (getW s' id).events = Mask.none
+  old : ∀ id, s.ws.length ≤ id → (getW s id).pevents = Mask.none ∧ (getW s id).events = Mask.none
+
+theorem getW_oob (s : St) (id : Nat) (h : s.ws.length ≤ id) : getW s id = default := by
+  simp [getW, List.getD_eq_getElem?_getD]
+  have : s.ws[id]? = none := by simp; omega
+  simp [this]
+
+theorem Kept.rfl' (s : St) : Kept s s :=
+  ⟨rfl, rfl, rfl, Nat.le_refl _, fun _ _ => ⟨rfl, rfl, rfl⟩,
+   fun id h => by rw [getW_oob s id h]; exact ⟨rfl, rfl⟩, fun id h => by rw [getW_oob s id h]; exact ⟨rfl, rfl⟩⟩
+
+/-- only fields other than ws/watchers/nfds/wq differ -/
+theorem Kept.of_eq {s s' : St} (h1 : s'.ws = s.ws) (h2 : s'.watchers = s.watchers) (h3 : s'.nfds = s.nfds)
+    (h4 : s'.wq = s.wq) : Kept s s' := by
+  have hg : ∀ id, getW s' id = getW s id := by intro id; simp [getW, h1]
+  refine ⟨h2, h3, h4, by simp [h1], fun id _ => by simp [hg], fun id h => ?_, fun id h => ?_⟩
+  · rw [hg, getW_oob s id h]; exact ⟨rfl, rfl⟩
+  · rw [getW_oob s id h]; exact ⟨rfl, rfl⟩
+
+/-- a watcher record rewritten without touching fd/pevents/events -/
+theorem Kept.setW (s : St) (id : Nat) (w : W) (hf : w.fd = (getW s id).fd)
+    (hp : w.pevents = (getW s id).pevents) (he : w.events = (getW s id).events) : Kept s (setW s id w) := by
+  refine ⟨rfl, rfl, rfl, by simp, fun j _ => ?_, fun j h => ?_, fun j h => ?_⟩
+  · rw [getW_setW]; split
+    · rename_i h; rw [h.1]; exact ⟨hf, hp, he⟩
+    · exact ⟨rfl, rfl, rfl⟩
+  · rw [getW_setW]; split
+    · rename_i h'; omega
+    · rw [getW_oob s j h]; exact ⟨rfl, rfl⟩
+  · rw [getW_oob s j h]; exact ⟨rfl, rfl⟩
+
+/-- a new, stopped watcher appended -/
+theorem Kept.push (s : St) (w : W) (hp : w.pevents = Mask.none) (he : w.events = Mask.none) :
+    Kept s { s with ws := s.ws ++ [w] } := by
+  refine ⟨rfl, rfl, rfl, by simp, fun j hj => ?_, fun j h => ?_, fun j h => ?_⟩
+  · simp [getW, List.getD_eq_getElem?_getD, List.getElem?_append, hj]
+  · simp [getW, List.getD_eq_getElem?_getD, List.getElem?_append]
+    have h1 : ¬ j < s.ws.length := by omega
+    simp [h1]
+    by_cases h2 : j - s.ws.length = 0
+    · simp [h2, hp, he]
+    · have : ([w] : List W)[j - s.ws.length]? = none := by simp; omega
+      simp [this]; exact ⟨rfl, rfl⟩
+  · rw [getW_oob s j h]; exact ⟨rfl, rfl⟩
+
+/-- what `applyQueue` does to the registry: queue emptied, queued watchers get `events := pevents` -/
+structure Applied (s s' : St) : Prop where
+  watchers : s'.watchers = s.watchers
+  nfds : s'.nfds = s.nfds
+  wq : s'.wq = []
+  len : s'.ws.length = s.ws.length
+  fd : ∀ id, (getW s' id).fd = (getW s id).fd
+  pev : ∀ id, (getW s' id).pevents = (getW s id).pevents
+  ev : ∀ id, (getW s' id).events = if id ∈ s.wq ∧ id < s.ws.length then (getW s id).pevents else (getW s id).events
+
+inductive Step : St → St → Prop
+  | kept {s s'} : Kept s s' → Step s s'
+  | start {s} (id : Nat) (m : Mask) : id < s.ws.length → m.e = false → m.h = false → Step s (ioStart s id m)
+  | stop {s} (id : Nat) (m : Mask) : Step s (ioStop s id m)
+  | applied {s s'} : Applied s s' → Step s s'
+
+inductive Reach : St → St → Prop
+  | refl (s) : Reach s s
+  | tail {s t u} : Reach s t → Step t u → Reach s u
+
+theorem Reach.trans {a b c : St} (h1 : Reach a b) (h2 : Reach b c) : Reach a c := by
+  induction h2 with
+  | refl => exact h1
+  | tail _ st ih => exact .tail ih st
+
+theorem Reach.step {s t : St} (h : Step s t) : Reach s t := .tail (.refl s) h
+theorem Reach.kept {s t : St} (h : Kept s t) : Reach s t := .step (.kept h)
+
+/-! ### the structural invariant -/
+
+structure SInv (s : St) : Prop where
+  /-- `loop->nfds` counts the registered descriptors -/
+  nfds : s.nfds = ((s.watchers.countP Option.isSome : Nat) : Int)
+  nodup : s.wq.Nodup
+  /-- a registered watcher is registered under its own descriptor -/
+  reg : ∀ fd id, watcherAt s fd = some id → id < s.ws.length ∧ (getW s id).fd = fd
+  /-- requested masks never contain POLLERR/POLLHUP -/
+  mask4 : ∀ id, (getW s id).pevents.e = false ∧ (getW s id).pevents.h = false
+  /-- a registered watcher whose kernel mask is stale is queued -/
+  told : ∀ fd id, watcherAt s fd = some id → (getW s id).events ≠ (getW s id).pevents → id ∈ s.wq
+  /-- registered watchers have something requested; watchers with something requested are registered -/
+  regReq : ∀ fd id, watcherAt s fd = some id → (getW s id).pevents ≠ Mask.none
+
+theorem watcherAt_lt {s : St} {fd id : Nat} (h : watcherAt s fd = some id) : fd < s.watchers.length :=
+  some_getD_lt _ _ _ h
+
+theorem SInv.kept {s s' : St} (i : SInv s) (k : Kept s s') : SInv s' := by
+  have hw : ∀ fd, watcherAt s' fd = watcherAt s fd := by intro fd; simp [watcherAt, k.watchers]
+  refine ⟨by rw [k.nfds, k.watchers]; exact i.nfds, by rw [k.wq]; exact i.nodup, ?_, ?_, ?_, ?_⟩
+  · intro fd id h; rw [hw] at h
+    have := i.reg fd id h
+    exact ⟨Nat.lt_of_lt_of_le this.1 k.len, by rw [(k.core id this.1).1]; exact this.2⟩
+  · intro id
+    by_cases h : id < s.ws.length
+    · rw [(k.core id h).2.1]; exact i.mask4 id
+    · rw [(k.fresh id (by omega)).1]; exact ⟨rfl, rfl⟩
+  · intro fd id h hne; rw [hw] at h
+    have hl := (i.reg fd id h).1
+    rw [k.wq]; apply i.told fd id h
+    rw [← (k.core id hl).2.1, ← (k.core id hl).2.2]; exact hne
+  · intro fd id h; rw [hw] at h
+    rw [(k.core id (i.reg fd id h).1).2.1]; exact i.regReq fd id h
 
 end UvModel.IoWatch
